@@ -51,7 +51,7 @@ Case(s, e) ==
     own |-> {tk.own[i] : i \in DOMAIN tk.own}, uown |-> {tk.uown[i] : i \in DOMAIN tk.uown}, uoOk |-> tk.uoOk,
     newc |-> tk.newc, newk |-> tk.newk, stmt |-> tk.stmt, kind |-> TKind(s, e), field |-> e.field, form |-> e.form,
     deleting |-> NoNew(e), tv |-> tk.tv,
-    elif |-> tk.elifPre \/ tk.elifPost, soleGen |-> tk.soleGen,
+    elifPre |-> tk.elifPre, elifPost |-> tk.elifPost, soleGen |-> tk.soleGen,
     dependent |-> TKind(s, e) = "Raise" /\ e.field = "exc" /\ Deleting(e) ]
 
 (* domain of C04 (DESIGN 4-C04): the edit succeeded, is a genuine container   *)
